@@ -711,6 +711,12 @@ func (c *child) table() []reqSpec {
 			if p.only != nil {
 				ms = p.only
 			}
+			if (p.class == "" || p.class == "protected") && htype != "root" {
+				// (the root handler answers every non-discovery request, whatever its method, with
+				// its public landing page)
+				// unusual methods must not slip past the auth wrapper either
+				ms = append(append([]string(nil), ms...), "OPTIONS", "PATCH")
+			}
 			for _, m := range ms {
 				rs := reqSpec{Method: m, Path: prefix + p.suffix, HType: htype, Kind: p.kind, Prefix: prefix, Class: p.class, Headers: p.hdr, NoCred: p.noCred}
 				if rs.Class == "" {
